@@ -117,7 +117,7 @@ func validVerbs(d *D) string {
 			return "bcdoOqxXUv" // read-only: no String method is called
 		}
 		return ""
-	case "Safe", "Unsafe", "slice", "arr", "S2", "SEmbed", "SVStruct", "SVSlice", "ptr", "RValue", "RegStruct", "strgs", "RVIdx", "RVFieldI":
+	case "Safe", "Unsafe", "slice", "arr", "S2", "SEmbed", "SVStruct", "SVSlice", "ptr", "RValue", "RegStruct", "strgs", "RVIdx", "RVIdxS", "RVFieldI":
 		vs := "abcdefgijklmnoqrstuvxyzABCDEFGHIJKLMNOQRSUVWXYZ!"
 		if d.K == "RVFieldI" {
 			switch k := d.Sub[0].K; {
@@ -158,7 +158,7 @@ func intersect(a, b string) string {
 // String/Error are printed structurally instead: outside the bracket domain.
 func sharpVOK(d *D) bool {
 	switch d.K {
-	case "Stringer", "PStringer", "Err", "StdErr", "WrapErr", "PErr", "ErrStringer", "RegStr", "RegDur", "SVStringer", "ptr", "RValue", "strgs", "RVIdx", "RVFieldI":
+	case "Stringer", "PStringer", "Err", "StdErr", "WrapErr", "PErr", "ErrStringer", "RegStr", "RegDur", "SVStringer", "ptr", "RValue", "strgs", "RVIdx", "RVIdxS", "RVFieldI":
 		return false
 	}
 	for _, s := range d.Sub {
@@ -267,7 +267,12 @@ func c05value(r *Rng, depth int, top bool) *D {
 		return dSub("RValue", sub())
 	case c < 59 && top:
 		// reflect.Value operands of the other shapes a struct walker produces
-		switch r.Intn(3) {
+		switch r.Intn(4) {
+		case 3:
+			k := []string{"Stringer", "PStringer", "RegStr", "RegDur", "SVStringer", "GoStrStringer", "ErrStringer"}[r.Intn(7)]
+			l := leafOfKind(r, k, c05opts())
+			l.S = QS(c05payload(r))
+			return dSub("RVIdxS", l)
 		case 0:
 			return dSub("RVIdx", sub())
 		case 1:
@@ -537,6 +542,13 @@ func c05product() []*Call {
 		func(l *D) *D { return dSub("ptr", &D{K: "RegStruct", N: 5, Sub: []*D{l}}) },
 		func(l *D) *D { return dSub("RValue", l) },
 		func(l *D) *D { return dSub("RVIdx", l) },
+		func(l *D) *D {
+			switch l.K {
+			case "Stringer", "PStringer", "RegStr", "RegDur", "SVStringer", "GoStrStringer", "ErrStringer":
+				return dSub("RVIdxS", l)
+			}
+			return l
+		},
 		func(l *D) *D {
 			if structuralLeaf(l.K) || l.K == "RegInt" || l.K == "RegStr" || l.K == "RegDur" || l.K == "nil" {
 				return &D{K: "RVFieldI", Sub: []*D{l}}
